@@ -63,12 +63,15 @@ def _tlc(ctx, name, module, cfgtext, timeout, simulate=None, workers=1, heap="6g
         cmd += ["-simulate", "num=%d" % per, "-depth", str(depth), "-seed", str(seed)]
     cmd.append(module + ".tla")
     outp = os.path.join(d, "out.txt")
+    t0 = time.time()
     try:
         with open(outp, "w") as fo:
             r = subprocess.run(cmd, cwd=d, stdout=fo, stderr=subprocess.STDOUT, text=True, timeout=timeout)
     except subprocess.TimeoutExpired:
         raise ToolError("TLC timed out on %s (%s)" % (module, name))
     lines = open(outp).read().splitlines()
+    if os.environ.get("VERIF_DEBUG"):
+        print("DEBUG tlc %s %s: %.1fs, %d lines" % (module, name, time.time() - t0, len(lines)))
     tail = "\n".join(lines[-40:])
     if simulate:
         if any(l.startswith("Error:") for l in lines):
@@ -129,6 +132,7 @@ def _run(ctx, replay):
     prop, tier, seed = ctx.prop, ctx.tier, ctx.seed
     vlib.build_harness(ctx, ["cfgcheck"])
     cases, fam = [], collections.Counter()
+    forced_reading = None
     tlc_states = 0
     W = max(2, min(12, vlib.NCPU - 4))
 
@@ -142,6 +146,7 @@ def _run(ctx, replay):
         for c in obj["cases"]:
             add(c, c.get("family", "replay"))
         seed = obj.get("seed", seed)
+        forced_reading = obj.get("reading")
     else:
         thorough = tier == "thorough"
         # (a) create-then-get over the class product
@@ -164,8 +169,8 @@ def _run(ctx, replay):
                 add({"kind": "cfg", "id": "seq2-%d" % i, "steps": h}, "update-mask-pairs")
         # (b3) sampled sequences of length 3 with topic deletions
         nsim = 20000 if thorough else 600
-        lines, _ = _tlc(ctx, "sim", "Config", _cfg("seq", picks="= {}", depth=3, paths=ALL_PATHS, new=range(1, 8), create=[1, 2, 5], dels=["t1", "t2", "t3"]),
-                        3000, simulate=(nsim, 7, seed * 7919 + 17), workers=W)
+        lines, _ = _tlc(ctx, "sim", "Config", _cfg("sim", picks="= {}", depth=3, paths=ALL_PATHS, new=range(1, 8), create=[1, 2, 5], dels=["t1", "t2", "t3"]),
+                        3000, simulate=(nsim, 45, seed * 7919 + 17), workers=W)
         hs = sorted({json.dumps(h, sort_keys=True) for h in _tagged(lines, "SCENARIO")})
         if len(hs) < nsim // 2:
             raise ToolError("TLC -simulate produced only %d scenarios" % len(hs))
@@ -192,7 +197,7 @@ def _run(ctx, replay):
             f.write(json.dumps(c) + "\n")
 
     rp = os.path.join(ctx.scratch, "results.ndjson")
-    cmd = [os.path.join(ctx.bin, "cfgcheck"), "-cases", cp, "-out", rp, "-scratch", ctx.sub("db"), "-workers", str(W), "-seed", str(seed)]
+    cmd = [os.path.join(ctx.bin, "cfgcheck"), "-cases", cp, "-out", rp, "-scratch", ctx.sub("db"), "-workers", str(W), "-seed", str(seed)] + (["-rt=false"] if replay else [])
     t_h = time.time()
     try:
         r = subprocess.run(cmd, capture_output=True, text=True, timeout=4 * 3600)
@@ -201,6 +206,8 @@ def _run(ctx, replay):
     if r.returncode != 0 or not os.path.exists(rp):
         raise ToolError("cfgcheck failed:\n" + (r.stdout + r.stderr)[-3000:])
     harness_wall = time.time() - t_h
+    if os.environ.get("VERIF_DEBUG"):
+        print("DEBUG cfgcheck %.1fs for %d cases" % (harness_wall, len(cases)))
     results = [json.loads(l) for l in open(rp)]
     errs = [x for x in results if x["status"] == "error"]
     if errs:
@@ -213,9 +220,13 @@ def _run(ctx, replay):
             len(rejected), ncfg, rejected[0]))
 
     # readings of the zero retry bound: accept A if it explains everything, else judge by B
-    tot_a = sum(len(x.get("mmA") or []) for x in results)
-    tot_b = sum(len(x.get("mmB") or []) for x in results)
-    reading = "A" if (tot_a == 0 and tot_b > 0) else "B"
+    def mmkeys(which):
+        return {(x["idx"], m["step"], m["via"], m["field"], m["got"]) for x in results for m in (x.get(which) or [])}
+    ka, kb = mmkeys("mmA"), mmkeys("mmB")
+    tot_a, tot_b = len(ka), len(kb)
+    only_a, only_b = len(ka - kb), len(kb - ka)
+    # A is followed consistently iff nothing mismatches under A that would be fine under B
+    reading = forced_reading or ("A" if (only_a == 0 and only_b > 0) else "B")
     groups = {}
 
     def hit(clause, detail, x, text):
@@ -249,7 +260,7 @@ def _run(ctx, replay):
         x = v["ex"]
         name = "".join(ch if ch.isalnum() else "_" for ch in v["clause"][4:] + "-" + v["detail"])[:120]
         cs = [cases[x["idx"]]] if x["idx"] < len(cases) else [{"kind": "rt", "rec": None}]
-        path = vlib.save_replay(ctx, name, {"cases": cs, "seed": seed, "signature": vlib.signature(v), "example": v["text"], "sent": x.get("sent")})
+        path = vlib.save_replay(ctx, name, {"cases": cs, "seed": seed, "reading": reading, "signature": vlib.signature(v), "example": v["text"], "sent": x.get("sent")})
         print("VIOLATION property=%s replay=%s signature=%s occurrences=%d case=%s %s" % (
             prop, path, vlib.signature(v), v["n"], cs[0].get("id", cs[0]["kind"]), v["text"][:300]))
         rc = 1
@@ -292,6 +303,7 @@ def _run(ctx, replay):
         "rejected_cases": len(rejected),
         "tlc_enumerated_states": tlc_states,
         "zero_retry_bound_reading": reading, "mismatches_reading_A": tot_a, "mismatches_reading_B": tot_b,
+        "mismatches_only_under_A": only_a, "mismatches_only_under_B": only_b,
         "signatures": {vlib.signature(v): v["n"] for v in viols},
         "known_findings_hit": {k: h["n"] for k, h in hits.items()},
         "harness_wall_s": round(harness_wall, 1),
